@@ -37,6 +37,21 @@ CHECKS = {
             "independence of intra-iteration interleavings; the compiled kernels are additionally run for threads 1..16 x chunksize{0,1,2,3,5,8} x 3 repeats and must be bitwise equal to the exact result.",
             "py_func is the same source numba compiles; native-code interleavings are covered by the conflict-freedom argument, not enumerated; integer-valued inputs make float sums exact.",
             "DESIGN.md C06"),
+    "C02": ("exploration",
+            "complete enumeration of rooted trees (Butcher order conditions) on the library's own coefficient arrays + one-step conformance of every stepping kernel + step/tolerance ladders on a right-hand-side menu with closed-form solutions",
+            "The tableau half is decided completely: every rooted tree up to the declared order (8/37/200 trees for orders 4/6/8, 17 for RK45, 200 for DOP853), the embedded error weights (RK45 E, DOP853 E3/E5) "
+            "and the RK45 dense-output polynomial are checked coefficient-wise. The stepping-code half: each kernel (generic, Hamiltonian twin, centre-manifold copy) is compared after one step with a textbook step "
+            "from the same table on 5 right-hand sides x 3 step sizes (also negative), and global-error ladders (4-5 rungs) on autonomous, non-autonomous, nonlinear coupled and Hamiltonian problems must show the declared exponent; "
+            "adaptive integrators are run on tolerance ladders 1e-4..1e-12 x 3 output grids (dense output exercised) with the error at every requested time bounded by 300*tol and shrinking; dense-output order by a forced-step ladder.",
+            "Exponent threshold p-0.75 on the overall ladder slope; reference solutions are closed forms / mpmath elliptic functions / scipy DOP853 at 1e-13; continuous ranges of step sizes and tolerances are covered on the stated ladders only.",
+            "DESIGN.md C02"),
+    "C01": ("exploration",
+            "exhaustive state lattice (mu x base points x 3^6 offsets) on the real field/Jacobian/variational/energy functions vs a 30-digit mpmath reference and its numerically differentiated Jacobian; Lie-derivative oracle for every energy observable; energy constancy along propagated trajectories",
+            "For every lattice state the library's vector field, all 36 Jacobian entries and both blocks of the 42-D variational right-hand side (Phi = I and a dense non-symmetric Phi) are compared with a reference written in the harness "
+            "(the Jacobian reference is obtained by differentiating the reference field, not by re-typing formulas). Every energy-like observable (crtbp_energy, effective_potential+kinetic_energy, energy_to_jacobi, the second Jacobi formula inside "
+            "_max_rel_energy_error, orbit/libration-point energy and jacobi) must have zero Lie derivative along the library's field at spatial states, and stay constant along System.propagate for fixed 4/6/8 and adaptive 5/8.",
+            "States closer than 0.02 to a primary skipped; tolerances 1e-12 (field), 1e-9 (Jacobian, relative), 2e-7*scale (Lie derivative by Richardson differences).",
+            "DESIGN.md C01"),
 }
 
 NOT_YET = {
